@@ -772,6 +772,11 @@ package dsl
 //@   property C06
 //@   requires newType != nil && oldType != nil
 //@   ensures generic_arguments_are_compared: typeof(result) != *TypeChangeIncompatible ==> called(getBaseDefinition)
+// The only difference between two type arguments that is not "changing the type arguments" is that the definition both
+// name has itself evolved: an iteration of the argument loop that goes on to the next argument saw no change or exactly
+// that one (a vector, optional, union ... of something that changed is a different argument: Image<float*> -> Image<double*>).
+//@   iteration 0: only_an_evolved_definition_is_tolerated_as_a_type_argument: lastResult(compareTypes) == nil || typeof(lastResult(compareTypes)) == *TypeChangeDefinitionChanged
+//@   ensures same_number_of_arguments_gives_one_of_three_verdicts: old(len(getBaseDefinition(newType.ResolvedDefinition).GetDefinitionMeta().TypeArguments) == len(getBaseDefinition(oldType.ResolvedDefinition).GetDefinitionMeta().TypeArguments)) ==> result == nil || typeof(result) == *TypeChangeDefinitionChanged || typeof(result) == *TypeChangeIncompatible
 
 // ---- C09: individual rules. "grew" = the pass reported at least one more error. ---------------------------------
 // A map key must be a primitive scalar type (aliases are looked through by GetUnderlyingType). Whether a key is
